@@ -70,6 +70,38 @@ def handle (line : String) : String :=
       | [p, ks] => (parseBits p, (ks.splitOn "/").filter (· ≠ "") |>.map parseBits)
       | _ => ([], [])
     verdict (Spec.regionsOk (buildSet peers) size.toNat! (parseBits cov) regions) "regions partition"
+  | ["regalloc", peers, r, _order, cov, items] =>
+    -- the composition the provider performs: regions partition the peers, every key is placed in exactly one region,
+    -- and inside its region it goes to exactly the min(r, |region|) XOR-nearest peers of that region
+    let r := r.toNat!
+    let its := parseKeys items
+    let parsed : List (Key × List Key × List (Key × List Key)) := (splitList impl).map fun part =>
+      match part.splitOn ">" with
+      | [p, ks, al] =>
+        (parseBits p, (ks.splitOn "/").filter (· ≠ "") |>.map parseBits,
+          ((al.splitOn ";").filter (· ≠ "")).map fun (e : String) =>
+            match e.splitOn ":" with
+            | [d, xs] => (parseBits d, (xs.splitOn "/").filter (· ≠ "") |>.map parseBits)
+            | _ => ([], []))
+      | _ => ([], [], [])
+    let regions := parsed.map fun (p, ks, _) => (p, ks)
+    let ps := regions.map (·.1)
+    if (buildSet peers).isEmpty then verdict (impl == "[]") "no peers, no regions" else
+    let regOk := Spec.regionsOk (buildSet peers) r (parseBits cov) regions
+    -- where every key ended up
+    let placedIn (x : Key) : List Key := (parsed.filter fun (_, _, al) => al.any fun (_, xs) => xs.contains x).map (·.1)
+    let placeOk := regions.isEmpty || its.all fun x =>
+      match placedIn x with
+      | [p] => Spec.assignOk ps x p
+      | _ => false
+    let allocOk := parsed.all fun (p, ks, al) =>
+      let mine := its.filter fun x => placedIn x == [p]
+      let assigned (x : Key) : List Key := (al.filter fun (_, xs) => xs.contains x).flatMap fun (d, xs) =>
+        List.replicate (xs.count x) d
+      al.all (fun (_, xs) => xs.all (mine.contains ·)) && Spec.allocOk mine ks r assigned
+    verdict (regOk && placeOk && allocOk)
+      (if !regOk then "regions partition" else if !placeOk then "every key in exactly one region"
+       else "allocation inside a region is to the nearest peers of the region")
   | ["assign", prefixes, keys] =>
     let ps := parseKeys prefixes
     let hs := parseKeys keys
